@@ -53,6 +53,12 @@ def _Stages(case, text):
       continue
     try:
       prog = project.Project(get(), case['query'], inline_of)
+      # order_by / limit are annotations of the source program, not rules
+      src = {p['name']: p for p in case['prog']['preds']}
+      for p in prog['preds']:
+        if p['name'] in src:
+          p['order'] = src[p['name']].get('order', [])
+          p['limit'] = src[p['name']].get('limit', -1)
       have = {p['name'] for p in prog['preds']}
       if not set(case['query']) <= have:
         out.append({'name': name, 'skipped': 'predicate missing'})
@@ -76,7 +82,7 @@ def StripForTlc(x):
     return {k: StripForTlc(v) for k, v in x.items()
             if k not in ('form', 'paren', 'ann', 'named_order', 'noise',
                          'order_as_denotation', 'limit_as_denotation', 'meta',
-                         'typ', 'chain')}
+                         'typ', 'chain', 'makes_text_order')}
   if isinstance(x, list):
     return [StripForTlc(v) for v in x]
   return x
